@@ -13,6 +13,8 @@ pub mod c13;
 pub mod c14;
 #[cfg(feature = "full")]
 pub mod c16;
+#[cfg(feature = "full")]
+pub mod c18;
 pub mod c04;
 pub mod c05;
 pub mod c06;
@@ -33,29 +35,31 @@ pub struct Prop {
     pub replay: fn(&Ctx, &Value) -> Result<Outcome, String>,
     pub rule: &'static str,
     pub full: bool,
+    pub child: Option<fn(&Ctx, &crate::engine::ChildArgs, &str)>,
 }
 
 pub fn registry() -> Vec<Prop> {
     #[allow(unused_mut)]
     let mut v = vec![
-        Prop { id: "C04", run: c04::run, replay: c04::replay, rule: c04::RULE, full: false },
-        Prop { id: "C05", run: c05::run, replay: c05::replay, rule: c05::RULE, full: false },
-        Prop { id: "C06", run: c06::run, replay: c06::replay, rule: c06::RULE, full: false },
-        Prop { id: "C07", run: c07::run, replay: c07::replay, rule: c07::RULE, full: false },
-        Prop { id: "C08", run: c08::run, replay: c08::replay, rule: c08::RULE, full: true },
-        Prop { id: "C09", run: c09::run, replay: c09::replay, rule: c09::RULE, full: false },
-        Prop { id: "C10", run: c10::run, replay: c10::replay, rule: c10::RULE, full: false },
-        Prop { id: "C11", run: c11::run, replay: c11::replay, rule: c11::RULE, full: false },
-        Prop { id: "C12", run: c12::run, replay: c12::replay, rule: c12::RULE, full: false },
-        Prop { id: "C15", run: c15::run, replay: c15::replay, rule: c15::RULE, full: false },
+        Prop { id: "C04", run: c04::run, replay: c04::replay, rule: c04::RULE, full: false, child: None },
+        Prop { id: "C05", run: c05::run, replay: c05::replay, rule: c05::RULE, full: false, child: None },
+        Prop { id: "C06", run: c06::run, replay: c06::replay, rule: c06::RULE, full: false, child: None },
+        Prop { id: "C07", run: c07::run, replay: c07::replay, rule: c07::RULE, full: false, child: None },
+        Prop { id: "C08", run: c08::run, replay: c08::replay, rule: c08::RULE, full: true, child: None },
+        Prop { id: "C09", run: c09::run, replay: c09::replay, rule: c09::RULE, full: false, child: None },
+        Prop { id: "C10", run: c10::run, replay: c10::replay, rule: c10::RULE, full: false, child: None },
+        Prop { id: "C11", run: c11::run, replay: c11::replay, rule: c11::RULE, full: false, child: None },
+        Prop { id: "C12", run: c12::run, replay: c12::replay, rule: c12::RULE, full: false, child: None },
+        Prop { id: "C15", run: c15::run, replay: c15::replay, rule: c15::RULE, full: false, child: None },
     ];
     #[cfg(feature = "full")]
     {
-        v.push(Prop { id: "C02", run: c02::run, replay: c02::replay, rule: c02::RULE, full: true });
-        v.push(Prop { id: "C13", run: c13::run, replay: c13::replay, rule: c13::RULE, full: true });
-        v.push(Prop { id: "C14", run: c14::run, replay: c14::replay, rule: c14::RULE, full: true });
-        v.push(Prop { id: "C16", run: c16::run, replay: c16::replay, rule: c16::RULE, full: true });
-        v.push(Prop { id: "C03", run: c03::run, replay: c03::replay, rule: c03::RULE, full: true });
+        v.push(Prop { id: "C02", run: c02::run, replay: c02::replay, rule: c02::RULE, full: true, child: None });
+        v.push(Prop { id: "C13", run: c13::run, replay: c13::replay, rule: c13::RULE, full: true, child: None });
+        v.push(Prop { id: "C14", run: c14::run, replay: c14::replay, rule: c14::RULE, full: true, child: None });
+        v.push(Prop { id: "C16", run: c16::run, replay: c16::replay, rule: c16::RULE, full: true, child: None });
+        v.push(Prop { id: "C18", run: c18::run, replay: c18::replay, rule: c18::RULE, full: true, child: Some(c18::child) });
+        v.push(Prop { id: "C03", run: c03::run, replay: c03::replay, rule: c03::RULE, full: true, child: None });
     }
     v.sort_by_key(|p| p.id);
     v
